@@ -310,9 +310,14 @@ SyntaxVisitor::Action DeclarationBinder::visitExtGNU_EnclosedCompoundStatementEx
 
 SyntaxVisitor::Action DeclarationBinder::visitTypeName(const TypeNameSyntax* node)
 {
+    // A type name within (the initializer or an array size of) a typedef
+    // declarator doesn't declare a typedef name.
+    auto inTydefDecltor = F_.inTydefDecltor_;
+    F_.inTydefDecltor_ = false;
     TypeStack tys;
     std::swap(tys_, tys);
     auto action = visitTypeName_AtSpecifier(node);
     std::swap(tys_, tys);
+    F_.inTydefDecltor_ = inTydefDecltor;
     return action;
 }
